@@ -536,8 +536,36 @@ func (ig *ingest) exactStaleness(ev *Eval, rule string, H *Term, allowed []strin
 	k := ig.k
 	vk, sk := vw(H).Key(), k.SView.Key()
 	var extra []string
+	// a conjunction known as a whole (a validation helper's verdict) is judged conjunct by conjunct
+	var leaves func(f *Atom, out *[]*Atom)
+	leaves = func(f *Atom, out *[]*Atom) {
+		if f.Pred == "truth" && len(f.Args) == 1 && ((f.Args[0].Op == "and" && !f.Neg) || (f.Args[0].Op == "or" && f.Neg)) {
+			for _, x := range f.Args[0].Args {
+				c := atomOf(x, f.Site)
+				if c == nil {
+					*out = append(*out, f)
+					return
+				}
+				if f.Neg {
+					c = c.Negate()
+				}
+				leaves(c, out)
+			}
+			return
+		}
+		*out = append(*out, f)
+	}
+	var flat []*Atom
 	for _, key := range ev.facts.SortedKeys() {
-		f := ev.facts[key]
+		leaves(ev.facts[key], &flat)
+	}
+	seenLeaf := map[string]bool{}
+	for _, f := range flat {
+		key := f.Key()
+		if seenLeaf[key] {
+			continue
+		}
+		seenLeaf[key] = true
 		if f.Pred != "eq" && f.Pred != "lt" && f.Pred != "le" && f.Pred != "truth" {
 			continue
 		}
